@@ -29,6 +29,7 @@ def gen_cases(tier, seed):
             cases.append({"kind": "diff", "cls": cls, "rs": f"C11:{seed}:{cls}:{i}"})
     for i in range(n * 6):
         cases.append({"kind": "rt", "rs": f"C11r:{seed}:{i}"})
+    cases.append({"kind": "pctcorpus"})
     for i in range(3):
         for cls in ("kPathCover", "MinPathCover", "kLeastAbsErrors"):
             cases.append({"kind": "covcorpus", "cls": cls, "i": i})
@@ -320,9 +321,32 @@ def run_covcorpus(case, viol, obs):
     return hashlib.sha1(desc.encode()).hexdigest()[:14], True, {"desc": desc, "node_mode": str(sn), "own_expansion": str(se)}
 
 
+def run_pctcorpus(case, viol, obs):
+    """elements_to_ignore_percentile on a node-weighted graph whose EDGES also carry an attribute of the same name: the percentile is
+    about the node weights only, so the result must equal the explicit ignore list on the harness expansion."""
+    import numpy as np
+    nodes = {"a": 10, "b": 4, "c": 10}; edges = [("a", "b"), ("b", "c")]; p_ = 30
+    out = {}
+    for ev in (None, 1, 1000):
+        sp = gen.spec(list(nodes), edges, nattr={v: {"flow": f} for v, f in nodes.items()}, eattr=({e: {"flow": ev} for e in edges} if ev is not None else None))
+        r = run({"cls": "kMinPathErrorCycles", "spec": sp, "kw": {"flow_attr": "flow", "flow_attr_origin": "node", "weight_type": "int", "k": 1, "elements_to_ignore_percentile": p_}})
+        out[ev] = summary("kMinPathErrorCycles", r)
+    thr = float(np.percentile(list(nodes.values()), p_)); low = [v for v, f in nodes.items() if f < thr]
+    Hn = [x for v in nodes for x in (v + "|i", v + "|o")]; He = [(v + "|i", v + "|o") for v in nodes] + [(u + "|o", v + "|i") for u, v in edges]
+    spe = gen.spec(Hn, He, eattr={(v + "|i", v + "|o"): {"flow": f} for v, f in nodes.items()})
+    re_ = run({"cls": "kMinPathErrorCycles", "spec": spe, "kw": {"flow_attr": "flow", "weight_type": "int", "k": 1,
+                                                               "elements_to_ignore": [[u + "|o", v + "|i"] for u, v in edges] + [[v + "|i", v + "|o"] for v in low]}})
+    exp = summary("kMinPathErrorCycles", re_)
+    obs["c11.pairs_compared"] += 3
+    for ev, sn in out.items():
+        if "time-limit" not in (sn[0], exp[0]) and sn != exp:
+            viol.append({"sig": "C11/node-mode-differs-from-own-expansion/kMinPathErrorCycles/percentile+edge-attrs", "msg": f"nodes {nodes} edges {edges} carrying flow={ev}, percentile {p_}: node mode {sn}, explicit expansion ignoring {low}: {exp}"})
+    return "pctcorpus", True, {"node_mode": {str(k): str(v) for k, v in out.items()}, "expansion": str(exp)}
+
+
 def run_case(case):
     viol = []; obs = collections.Counter()
-    key, nontriv, sample = {"diff": run_diff, "rt": run_rt, "covcorpus": run_covcorpus}[case["kind"]](case, viol, obs)
+    key, nontriv, sample = {"diff": run_diff, "rt": run_rt, "covcorpus": run_covcorpus, "pctcorpus": run_pctcorpus}[case["kind"]](case, viol, obs)
     seen = set(); out = []
     for v in viol:
         if v["sig"] not in seen:
